@@ -65,6 +65,19 @@ def monotonic (ny : Nat) (sym : Bool) (v : Nat → K) (i : Nat) : K :=
 /-- `MultiCD.compute` -/
 def multiCD (n : Nat) (cd : Nat → K) : K := sumTo n cd
 
+/-! ### declared sparsity patterns (transliterated `rows/cols/val` of `setup()`), compared exactly with the arrays the component
+declares and proved to be the Jacobian of the model for every size -/
+
+/-- `MonotonicConstraint.setup`: entry `k < 2 (ny − 1)` of `rows`, `cols`, `sparse_val`:
+`rows = [0,0,1,1,…]`, `cols = [0,1,1,2,2,…,ny−1]`, `val = [1,−1,1,−1,…]` with the sign flipped from index `ny − 2` (even `ny`) or
+`ny − 1` (odd `ny`) on when the surface is not symmetric -/
+def monoRow (k : Nat) : Nat := k / 2
+def monoCol (k : Nat) : Nat := (k + 1) / 2
+def monoFlipFrom (ny : Nat) : Nat := if ny % 2 = 0 then ny - 2 else ny - 1
+def monoVal [One K] (ny : Nat) (sym : Bool) (k : Nat) : K :=
+  let v : K := if k % 2 = 0 then 1 else -1
+  if !sym && decide (monoFlipFrom ny ≤ k) then -v else v
+
 end
 end Glue
 end OAS
